@@ -772,10 +772,12 @@ func (d *Disk) NextEpoch(mode ImageMode, seed uint64, crashed bool) []string {
 				desc = append(desc, fmt.Sprintf("%s tail(%d) kept", fd, tail))
 			case 2: // cut
 				k := int(r.next() % uint64(tail+1))
+				k = biasCut(&r, f.synced, tail, k)
 				f.data = f.data[: f.synced+k : f.synced+k]
 				desc = append(desc, fmt.Sprintf("%s tail(%d) cut at +%d", fd, tail, k))
 			case 3, 4: // cut and followed by zero / garbage bytes
 				k := int(r.next() % uint64(tail+1))
+				k = biasCut(&r, f.synced, tail, k)
 				g := int(r.next()%uint64(tail-k+1)) + 1
 				nd := append([]byte(nil), f.data[:f.synced+k]...)
 				for i := 0; i < g; i++ {
@@ -798,4 +800,25 @@ func (d *Disk) NextEpoch(mode ImageMode, seed uint64, crashed bool) []string {
 	d.locked = false
 	d.Epoch++
 	return desc
+}
+
+// biasCut moves some cut points next to a 32 KiB block boundary (journal and
+// manifest framing is block based: the few bytes around a boundary are the
+// interesting tear positions and a uniform draw almost never hits them).
+func biasCut(r *xrng, synced, tail, k int) int {
+	const block = 32 * 1024
+	if r.next()%3 != 0 {
+		return k
+	}
+	first := (synced/block + 1) * block
+	if first > synced+tail {
+		return k
+	}
+	nb := (synced+tail-first)/block + 1
+	b := first + int(r.next()%uint64(nb))*block
+	off := b + int(r.next()%17) - 8 - synced
+	if off < 0 || off > tail {
+		return k
+	}
+	return off
 }
